@@ -265,7 +265,16 @@ class MonteCarlo(SingleDriver, Generic[MoveType, CriteriaType]):
 
         return dictionary
 
-    todict = to_dict
+    def todict(self) -> dict[str, Any]:
+        """
+        Alias of `to_dict` used by ASE's JSON writer; dispatches to the `to_dict` of the actual class.
+
+        Returns
+        -------
+        dict[str, Any]
+            A dictionary representation of the `MonteCarlo` object.
+        """
+        return self.to_dict()
 
     @classmethod
     def from_dict(cls, data: dict[str, Any], **kwargs_override: Any) -> Self:
